@@ -990,7 +990,20 @@ impl Transport for LocalTransport {
     }
 
     async fn read_link(&self, path: &Path) -> Result<Option<std::path::PathBuf>> {
-        Ok(tokio::fs::read_link(path).await.ok())
+        match tokio::fs::read_link(path).await {
+            Ok(target) => Ok(Some(target)),
+            // Not a symbolic link (EINVAL) or nothing there: the answer is "no link"
+            Err(e)
+                if matches!(
+                    e.kind(),
+                    std::io::ErrorKind::InvalidInput | std::io::ErrorKind::NotFound
+                ) =>
+            {
+                Ok(None)
+            }
+            // Anything else means the question could not be answered
+            Err(e) => Err(SyncError::Io(e)),
+        }
     }
 }
 
